@@ -8,6 +8,7 @@ import (
 )
 
 func init() {
+	vrt.Register("VerifC11RoundTrip", VerifC11RoundTrip)
 	vrt.Register("VerifC11Tables", VerifC11Tables)
 	vrt.Register("VerifC11ParseDQT", VerifC11ParseDQT)
 	vrt.Register("VerifC11Padding", VerifC11Padding)
@@ -41,6 +42,15 @@ func VerifC11Tables() {
 	for i := 0; i < 64; i++ {
 		vrt.Assert(seen[i] == 1, "C11 ZigZag is a permutation of 0..63")
 	}
+	// T.81 Figure A.6, generated independently by walking the anti-diagonals
+	ref := c11RefZigZag()
+	zz := 0
+	for i := 0; i < 64; i++ {
+		if standard.ZigZag[i] != ref[i] {
+			zz |= 1
+		}
+	}
+	vrt.Assert(zz == 0, "C11 ZigZag is the T.81 Figure A.6 scan order")
 	var buf bytes.Buffer
 	vrt.Assert(enc.writeDQT(standard.NewWriter(&buf)) == nil, "C11 writeDQT returns no error")
 	b := buf.Bytes()
@@ -111,4 +121,135 @@ func VerifC11Padding() {
 	}
 	vrt.Assert(same == 0, "C11 padding replicates the edge pixel")
 	vrt.Out("y", int(yc.Y[0]))
+}
+
+// c11RefZigZag: natural index of the k-th coefficient in zig-zag order.
+func c11RefZigZag() [64]int {
+	var out [64]int
+	k := 0
+	for d := 0; d < 15; d++ {
+		for t := 0; t <= d; t++ {
+			r, c := t, d-t // odd diagonals run top-right to bottom-left
+			if d%2 == 0 {
+				r, c = d-t, t
+			}
+			if r < 8 && c < 8 {
+				out[k] = r*8 + c
+				k++
+			}
+		}
+	}
+	return out
+}
+
+// c11Content: fixed contents: 0 noise (LCG), 1 one-pixel checkerboard of the
+// extremes (Nyquist frequency: long zero runs, clamping), 2 flat with impulses.
+func c11Content(n, comps, kind, maxv int) []int {
+	out := make([]int, n*comps)
+	state := uint32(0xC11C11)
+	for i := range out {
+		state = state*1664525 + 1013904223
+		switch kind {
+		case 0:
+			out[i] = int(state>>8) % (maxv + 1)
+		case 1:
+			out[i] = ((i / comps) % 2) * maxv
+		default:
+			out[i] = maxv / 2
+			if state>>28 == 0 {
+				out[i] = maxv
+			}
+		}
+	}
+	return out
+}
+
+// c11Bounds: per quantisation table, 1024 x (1/8) x sum C(u)C(v) q[u][v], rounded
+// up (C(0) = 1/sqrt2 taken as 725/1024, C(0)C(0) = 1/2).
+func c11Bounds(stream []byte) [4]int {
+	var b [4]int
+	for i := 2; i+3 < len(stream) && stream[i] == 0xFF && stream[i+1] != 0xDA; {
+		l := int(stream[i+2])<<8 | int(stream[i+3])
+		if stream[i+1] == 0xDB {
+			for p := i + 4; p < i+2+l; {
+				pq, tq := int(stream[p]>>4), int(stream[p]&15)
+				p++
+				sum := 0
+				for k := 0; k < 64; k++ {
+					q := int(stream[p])
+					if pq == 1 {
+						q = q<<8 | int(stream[p+1])
+						p++
+					}
+					p++
+					nat := c11RefZigZag()[k]
+					wt := 1024
+					if nat/8 == 0 {
+						wt = wt * 725 / 1024
+					}
+					if nat%8 == 0 {
+						wt = wt * 725 / 1024
+					}
+					sum += wt * q
+				}
+				b[tq&3] = (sum + 7) / 8
+			}
+		}
+		i += 2 + l
+	}
+	return b
+}
+
+// VerifC11RoundTrip: the baseline encoder's stream is accepted by the matching
+// decoder, with the source geometry, and every sample is within the bound the
+// stream's own DQT tables imply (property statement) - on fixed contents
+// (noise, Nyquist checkerboard, impulses) over sizes with every partial-block
+// shape class, 1 and 3 components and a set of qualities (one path per
+// configuration: enumerative; the bound itself for arbitrary contents is NOT
+// decided, see DESIGN.md).
+func VerifC11RoundTrip() {
+	sz := [][2]int{{9, 9}, {13, 11}, {16, 16}, {7, 16}, {1, 1}, {20, 5}, {33, 8}}[vrt.Choice("size", 0, vrt.Param("nsize", 4)-1)]
+	w, h := sz[0], sz[1]
+	comps := []int{1, 3}[vrt.Choice("c", 0, 1)]
+	q := []int{100, 75, 97, 50, 1}[vrt.Choice("q", 0, vrt.Param("nq", 2)-1)]
+	kind := vrt.Choice("content", 0, 2)
+	vals := c11Content(w*h, comps, kind, 255)
+	px := make([]byte, len(vals))
+	for i, v := range vals {
+		px[i] = byte(v)
+	}
+	stream, err := Encode(px, w, h, comps, q)
+	vrt.Assert(err == nil, "C11 Encode accepts the image")
+	if err != nil {
+		return
+	}
+	out, dw, dh, dc, err := Decode(stream)
+	vrt.Assert(err == nil, "C11 the matching decoder accepts the stream the encoder returned")
+	if err != nil {
+		return
+	}
+	vrt.Assert(dw == w && dh == h && dc == comps && len(out) == len(px), "C11 decoded geometry equals the source geometry")
+	if len(out) != len(px) {
+		return
+	}
+	b := c11Bounds(stream)
+	// grey: bound(table 0) + 2; RGB: |dR| <= dY + 1.402 dCr, |dG| <= dY + 0.344 dCb + 0.714 dCr, |dB| <= dY + 1.772 dCb, + 5
+	lim := [3]int{b[0] + 2*1024, 0, 0}
+	if comps == 3 {
+		lim[0] = b[0] + b[1]*1402/1000 + 5*1024
+		lim[1] = b[0] + b[1]*344/1000 + b[1]*714/1000 + 5*1024
+		lim[2] = b[0] + b[1]*1772/1000 + 5*1024
+	}
+	worst := 0
+	for i := range px {
+		d := int(px[i]) - int(out[i])
+		if d < 0 {
+			d = -d
+		}
+		if d*1024 > lim[i%comps] {
+			worst |= 1
+		}
+	}
+	vrt.Assert(worst == 0, "C11 every sample differs from the source by no more than the bound implied by the stream's DQT tables (+2 grey / +5 per RGB channel)")
+	vrt.Out("len", len(stream))
 }
